@@ -425,6 +425,11 @@ class SeqGen:
             if self.style.get(t) == 'plain':
                 return
             self.style[t] = 'kw'
+        if cmd == 'target_include_directories' and self.human_ok:
+            # the human format cannot tell two directories from one directory containing a blank
+            args += [r.choice(['PUBLIC', 'PRIVATE', 'INTERFACE']) if full else 'INTERFACE', self.atom(pre)]
+            self.cmds.append(C(cmd, *args))
+            return
         # "BEFORE: the content will be prepended" - the manual does not say how several keyword groups are ordered
         # among themselves when prepended, so a prepending command has one group
         for _ in range(1 if before else r.randint(1, 3)):
